@@ -516,12 +516,23 @@ def _ple_content(g, m, n):
     return g.rows(m, n)
 
 
+# Finding F21: _mzd_ple_russian / _mzd_pluq_russian called directly on a window at an ODD word offset fault in
+# SSE2 builds when the window is >= 3 words wide (table rows not in the 16-byte phase of the destination, same
+# family as F9/F14/F20).  The library itself only calls them on a fresh copy (ple.c:77).  Until the entry exists in
+# known_findings.json the catalogue keeps the placement valid (even word offsets); True generates odd ones too.
+RUSSIAN_ODD_WINDOW = False
+
+
 def _ple(name, has_k):
     def b(g, W, sz):
         k = g.rng.choice([0, 0, 2, 3, 4, 5, 6, 7, 8]) if has_k else None
         m, n = _ple_shape(g, sz, k)
         ra, ka = _ple_content(g, m, n)
-        la, da = g.operand("A", m, n, ra, W("A"))
+        w = W("A")
+        if w is not None and has_k and not RUSSIAN_ODD_WINDOW:
+            w = dict(w)
+            w["wo"] = (w["wo"] // 2 * 2) if "wo" in w else g.rng.choice([0, 2])
+        la, da = g.operand("A", m, n, ra, w)
         lines = la + [g.perm_line("P", _gen.junk_perm(g, m)), g.perm_line("Q", _gen.junk_perm(g, n))]
         if name in ("_ple_naive", "_pluq_naive"):
             par, call = None, "call %s A P Q" % name
@@ -546,9 +557,20 @@ _ple("_pluq_russian", True)
 # ------------------------------------------------------------------------------------------------
 # C04 — triangular solves: unit diagonal, garbage in the unused triangle, T and B dumped
 # ------------------------------------------------------------------------------------------------
+# set by the engines: (lo, hi, probability) — dimensions of triangular / square systems forced into [lo, hi]
+# (beyond MUL_BLOCKSIZE resp. the trtri recursion threshold of the small-cache build)
+TRI_BIG = None
+
+
+def _tri_dim(g, sz):
+    if TRI_BIG and g.rng.random() < TRI_BIG[2]:
+        return g.rng.choice([TRI_BIG[0], TRI_BIG[0] + 1, g.rng.randint(TRI_BIG[0], TRI_BIG[1]), g.rng.randint(TRI_BIG[0], TRI_BIG[1])])
+    return _gen.tri_dim(g, sz)
+
+
 def _trsm(name, upper, left):
     def b(g, W, sz):
-        n = _gen.tri_dim(g, sz)
+        n = _tri_dim(g, sz)
         w = g.rng.choice([g.dim(sz), g.dim(sz), g.rng.choice([d for d in (1, 63, 64, 65, 127, 128, 129, 130) if d <= max(sz, 1)])])
         garbage = g.rng.random() < 0.85
         rt = g.unit_tri_rows(n, upper, garbage=garbage)
@@ -574,7 +596,7 @@ for _pre in ("", "_"):
 # ------------------------------------------------------------------------------------------------
 @op("inv_m4ri", "C05", ["D", "A"])
 def b_inv_m4ri(g, W, sz):
-    n = _gen.tri_dim(g, sz)
+    n = _tri_dim(g, sz)
     ra = g.invertible_rows(n)
     la, da = g.operand("A", n, n, ra, W("A"))
     ld, dd, dn = _dst(g, W, "D", n, n)
@@ -585,7 +607,7 @@ def b_inv_m4ri(g, W, sz):
 
 @op("invert_naive", "C05", ["D", "A", "I"])
 def b_invert_naive(g, W, sz):
-    n = _gen.tri_dim(g, sz)
+    n = _tri_dim(g, sz)
     ra = g.invertible_rows(n)
     la, da = g.operand("A", n, n, ra, W("A"))
     li, di = g.operand("I", n, n, [1 << i for i in range(n)], W("I"))
@@ -596,7 +618,7 @@ def b_invert_naive(g, W, sz):
 
 @op("trtri_upper", "C05", ["A"])
 def b_trtri_upper(g, W, sz):
-    n = _gen.tri_dim(g, sz)
+    n = _tri_dim(g, sz)
     # the stored diagonal is read by the Four-Russians base (must be one); the lower triangle is not touched
     garbage = g.rng.random() < 0.5
     ra = g.unit_tri_rows(n, True, garbage=garbage)
@@ -782,7 +804,7 @@ def tier_a(cases, cout):
             continue
         o = mo.get(cc.id)
         if o is None or o[0] != "OK" or not o[1] or any(l.strip() != "ok 1" for l in o[1]):
-            bad.append((c, "tier A: the verified checker rejects the implementation's output", cout.get(c.id), o))
+            bad.append((c, "tier A: the checker (%s) rejects the implementation's output" % cc.lines[-1].split()[1], cout.get(c.id), o))
     return bad, len(chk)
 
 
@@ -812,6 +834,8 @@ def regime_of(case, variant):
     m = case.meta
     prop = CATALOG.get(m.get("op"), {}).get("prop")
     sh = m.get("shape", ())
+    if m.get("op") in ("_ple_naive", "_pluq_naive", "_ple_russian", "_pluq_russian"):
+        return "naive" if "naive" in m["op"] else "russian k=%s" % m.get("k")
     if prop in ("C03", "C07") or m.get("op") in ("solve_left", "pluq_solve_left"):
         nr, nc = sh[0], sh[1]
         return "ple-rec" if nc > 64 and ((nc + 63) // 64) * nr > ple_cutoff_words(variant) else "ple-base"
@@ -824,6 +848,19 @@ def regime_of(case, variant):
     return "-"
 
 
+def proof_part(res, name):
+    """engine.proof_part for Properties/<name>.v if that file exists AND is registered in _CoqProject (files
+    still being written by their owners are not); otherwise the run is correspondence-only and says so."""
+    import os, engine, vlib
+    f = "Properties/%s.v" % name
+    if os.path.exists(os.path.join(vlib.COQ, f)) and f in vlib.coq_files():
+        return engine.proof_part(res, [name])
+    engine.proof_part(res, [])
+    res.cov["proof_note"] = "coq/%s %s: correspondence only in this run" % (
+        f, "is not registered in _CoqProject yet" if os.path.exists(os.path.join(vlib.COQ, f)) else "does not exist yet")
+    return True
+
+
 class Tiers:
     def __init__(self, res, prop, variant, unique=False, tag=None):
         import corr
@@ -831,6 +868,7 @@ class Tiers:
         self.tag = tag if tag is not None else "/cfg=" + variant["name"]
         self.runner = corr.Runner(variant)
         self.nA = self.nB = self.ncases = self.nchk = 0
+        self.force_b = False      # exact mismatches are Tier B only (inputs outside the property's domain)
 
     def env(self):
         import os
@@ -851,7 +889,7 @@ class Tiers:
             if c.id in seen:
                 continue
             has_checker = c.meta.get("op") in CHECKERS
-            if self.unique or not has_checker or why.startswith("fate") or why.startswith("missing"):
+            if ((self.unique or not has_checker) and not self.force_b) or why.startswith("fate") or why.startswith("missing"):
                 badA.append((c, "tier A: " + why, b[2], b[3]))
                 seen.add(c.id)
             else:
@@ -870,12 +908,17 @@ class Tiers:
                 return badA[0]
         return None
 
-    def run(self, opnames, seed, n_per_op, sz, W=None, cases=None, search_sz=None):
+    def run(self, opnames, seed, n_per_op, sz, W=None, cases=None, search_sz=None, rec_bias=0.0, tri_big=None):
         import gen, engine, corr, vlib
+        global REC_BIAS, REC_WORDS, TRI_BIG
         res = self.res
         if cases is None:
             g = gen.G(seed)
-            cases = [build(name, g, W, sz) for name in opnames for _ in range(n_per_op)]
+            REC_BIAS, REC_WORDS, TRI_BIG = rec_bias, ple_cutoff_words(self.variant), tri_big
+            try:
+                cases = [build(name, g, W, sz) for name in opnames for _ in range(n_per_op)]
+            finally:
+                REC_BIAS, TRI_BIG = 0.0, None
         badA, onlyB, cout, mout = self.evaluate(cases)
         dist = res.cov.setdefault("distribution", {})
         for c in cases:
@@ -905,7 +948,7 @@ class Tiers:
         self.nA += len(badA)
         self.nB += len(onlyB)
         t = res.cov.setdefault("tiers", {})
-        tt = t.setdefault(self.variant["name"], {"cases": 0, "tierA_checker_runs": 0, "tierA_failures": 0, "tierB_only": 0})
+        tt = t.setdefault(self.tag.replace("/cfg=", "").replace("/corpus", "").replace("/replay", ""), {"cases": 0, "tierA_checker_runs": 0, "tierA_failures": 0, "tierB_only": 0})
         tt["cases"], tt["tierA_checker_runs"], tt["tierA_failures"], tt["tierB_only"] = self.ncases, self.nchk, self.nA, self.nB
         engine.handle_mismatches(res, self.prop, badA, self.runner, tag=self.tag + "/tierA",
                                  regen=lambda case: self.shrink(case, W, seed + 1))
@@ -913,8 +956,16 @@ class Tiers:
         if onlyB and not badA:
             opsB = sorted(set(b[0].meta["op"] for b in onlyB))
             g = gen.G(seed + 99)
-            more = [build(name, g, W, search_sz or min(2 * sz, 400)) for name in opsB for _ in range(max(40, 2 * n_per_op))]
+            REC_BIAS, REC_WORDS, TRI_BIG = rec_bias, ple_cutoff_words(self.variant), tri_big
+            try:
+                more = [build(name, g, W, search_sz or max(sz, min(2 * sz, 400)) or 130) for name in opsB for _ in range(max(40, 2 * n_per_op))]
+            finally:
+                REC_BIAS, TRI_BIG = 0.0, None
+            for c in more:
+                res.count(("tierA-search", c.meta.get("op"), c.meta.get("shape"), c.meta.get("kinds"), self.tag))
+            fb, self.force_b = self.force_b, False
             hitA, _, _, _ = self.evaluate(more)
+            self.force_b = fb
             if hitA:
                 engine.handle_mismatches(res, self.prop, hitA, self.runner, tag=self.tag + "/tierA-search")
             else:
